@@ -213,9 +213,13 @@ type pidKey struct {
 	id      string
 }
 
+// noPIDIndex is the index that stands for "no PID", a message without a
+// sender. Index 0 names the first PID of the table.
+const noPIDIndex int32 = -1
+
 func lookupPIDs(m map[pidKey]int32, pid *actor.PID, pids []*actor.PID) (int32, []*actor.PID) {
 	if pid == nil {
-		return 0, pids
+		return noPIDIndex, pids
 	}
 	max := int32(len(m))
 	key := pidKey{address: pid.Address, id: pid.ID}
